@@ -54,10 +54,10 @@ func resolveBucket(p *Prog, r *Report, rule string) *bucketInfo {
 		r.Anchor(rule, "ratelimit.tokenBucket / TokenBucketSet", "types not found")
 		return nil
 	}
-	b.avail, b.burst, b.tpt, b.lastRef, b.lastCons = "availableTokens", "burst", "timePerToken", "lastRefresh", "lastConsumed"
-	for _, f := range []string{b.avail, b.burst, b.tpt, b.lastRef, b.lastCons} {
-		if structFieldType(b.typ, f) == nil {
-			r.Anchor(rule, "ratelimit.tokenBucket."+f, "field not found")
+	b.avail, b.burst, b.tpt, b.lastRef, b.lastCons = bindBucketFields(p, b.typ)
+	for i, f := range []string{b.avail, b.burst, b.tpt, b.lastRef, b.lastCons} {
+		if f == "" || structFieldType(b.typ, f) == nil {
+			r.Anchor(rule, "ratelimit.tokenBucket: field in the role of "+[]string{"availableTokens", "burst", "timePerToken", "lastRefresh", "lastConsumed"}[i], "no field of the bucket could be bound to this role (by name or by use)")
 			return nil
 		}
 	}
@@ -204,8 +204,15 @@ func limiterSerial(p *Prog, r *Report, rule string) {
 	mus := fieldsOfType(tl, func(t types.Type) bool { return typeIs(t, "sync", "Mutex") || typeIs(t, "sync", "RWMutex") })
 	n := 0
 	bad := map[string]Access{}
+	setBuckets, setMax := "buckets", "maxPeriod"
+	if set := p.Named("ratelimit", "TokenBucketSet"); set != nil {
+		if f := bucketsField(set); f != "" {
+			setBuckets = f
+		}
+		setMax = fieldByRole(set, "maxPeriod", isDurationT, nil)
+	}
 	for _, a := range ls.Accesses {
-		if !strings.Contains(a.Path, ".buckets") && !strings.HasSuffix(a.Path, ".maxPeriod") {
+		if !strings.Contains(a.Path, "."+setBuckets) && !(setMax != "" && strings.HasSuffix(a.Path, "."+setMax)) {
 			continue
 		}
 		if _, ex := c09ExemptRoots[strings.TrimSuffix(a.Root, "$go")]; ex {
@@ -413,7 +420,20 @@ func runC03(p *Prog, r *Report) {
 		nT++
 		e := BuildExpr(p, st.Val, nil)
 		rf := ToRat(e)
-		okF := len(rf.Q) == 1 && strings.Contains(rf.Q.String(), "average") && len(rf.P) == 1
+		// divisor: the rate's average = the int64 field of the rate record that is NOT the one the bucket's burst is taken from
+		okF := len(rf.Q) == 1 && len(rf.P) == 1
+		if okF {
+			q := rf.Q.String()
+			bsrc := ""
+			for _, bs := range p.StoresToField(b.typ, b.burst) {
+				if u, ok := stripConv(bs.Val).(*ssa.UnOp); ok {
+					if _, f, _, ok := fieldOf(u.X); ok {
+						bsrc = f
+					}
+				}
+			}
+			okF = strings.Contains(q, "fld(") && (bsrc == "" || !strings.Contains(q, ")."+bsrc)) && !strings.Contains(q, ")."+b.burst) && !strings.Contains(q, ")."+b.avail)
+		}
 		d, okD := DimOf(e)
 		r.Check(okF && okD && d["ns"] == 1 && len(d) == 1, "C03.R4", "ratelimit.tokenBucket.timePerToken = period/average in "+FName(st.Parent()), p.InstrPos(st), "ns per token", "timePerToken is stored as "+truncate(e.String(), 120)+" (dimension "+d.String()+")")
 	}
@@ -421,7 +441,7 @@ func runC03(p *Prog, r *Report) {
 	// ---- R5 all buckets consulted ----
 	for _, c := range Calls(b.setCons) {
 		if c.Common().StaticCallee() == b.consume {
-			ok, why := fullRangeLoop(p, c, b.setTyp, "buckets")
+			ok, why := fullRangeLoop(p, c, b.setTyp, bucketsField(b.setTyp))
 			r.Check(ok, "C03.R5", "ratelimit.(*TokenBucketSet).Consume: every bucket is consulted", p.InstrPos(c), "range over the bucket map, left only when exhausted", why+": a rate of the set is skipped")
 		}
 	}
@@ -596,7 +616,8 @@ func c03Capacity(p *Prog, r *Report, rule string, tl *types.Named) {
 			what := "ratelimit." + fn.Name() + ": TTL map sized with the configured capacity"
 			arg := stripConv(call.Common().Args[0])
 			ld, isLoad := arg.(*ssa.UnOp)
-			if !isLoad || !isFieldAddr(ld.X, tl, "capacity") {
+			capF := fieldByRole(tl, "capacity", isPlainBasic(types.Int), func(f string) bool { return f == fieldSetByOption(p, "ratelimit", "Capacity", tl) })
+			if !isLoad || capF == "" || !isFieldAddr(ld.X, tl, capF) {
 				r.Fail(rule, what, p.InstrPos(call), "the capacity handed to NewTTLMap is "+truncate(BuildExpr(p, arg, nil).String(), 100)+", not the limiter's capacity field")
 				continue
 			}
@@ -692,7 +713,7 @@ func runC13(p *Prog, r *Report) {
 	if rbCall == nil || consCall == nil {
 		r.Fail("C13.R2", sn+": consume loop and rollback loop", p.FuncPos(sc), "the bucket set does not call both the bucket's consume and its rollback")
 	} else {
-		ok, why := fullRangeLoop(p, rbCall, b.setTyp, "buckets")
+		ok, why := fullRangeLoop(p, rbCall, b.setTyp, bucketsField(b.setTyp))
 		r.Check(ok, "C13.R2", sn+": rollback visits every bucket", p.InstrPos(rbCall), "range over the bucket map, left only when exhausted", why)
 		// trigger edges: firstErr != nil (true) and maxDelay > 0 (true), evaluated after the consume loop
 		var trig []Edge
@@ -961,4 +982,10 @@ func mutantsC13() []Mutant {
 		{Name: "status-503", File: tl, Old: "\t\tw.WriteHeader(http.StatusTooManyRequests)", New: "\t\tw.WriteHeader(http.StatusServiceUnavailable)", Expect: "C13.R5"},
 		{Name: "consume-moves-checkpoint", File: "ratelimit/bucket.go", Old: "\ttb.availableTokens -= tokens\n\ttb.lastConsumed = tokens\n", New: "\ttb.availableTokens -= tokens\n\ttb.lastConsumed = tokens\n\ttb.lastRefresh = clock.Now().UTC()\n", Expect: "C13.R7"},
 	}
+}
+
+
+// bucketsField: the map field of the bucket set (by name, else the only map-typed field).
+func bucketsField(set *types.Named) string {
+	return fieldByRole(set, "buckets", func(t types.Type) bool { _, ok := t.Underlying().(*types.Map); return ok }, nil)
 }
